@@ -78,11 +78,13 @@ pub fn build_chain_services(
         .name("preload_unverified_block".into())
         .spawn({
             let shared = builder.shared.clone();
+            let is_pending_verify = Arc::clone(&is_pending_verify);
             move || {
                 let preload_unverified_block = PreloadUnverifiedBlocksChannel::new(
                     shared,
                     preload_unverified_rx,
                     unverified_block_tx,
+                    is_pending_verify,
                     preload_unverified_stop_rx,
                 );
                 preload_unverified_block.start()
